@@ -58,6 +58,27 @@ def g_gamma(w):          # (-4 - 3w - w^2 + e^w (4 - w))/w^3
     return smt.cdiv(smt.cadd(q, smt.cmul(_e(w), smt.csub(_c(4), w))), smt.cpow_int(w, 3))
 
 
+def num_phi1(w):
+    return smt.csub(_e(w), ONE)
+
+
+def num_alpha(w):
+    p = smt.cadd(smt.csub(_c(4), smt.cmul(_c(3), w)), smt.cpow_int(w, 2))
+    return smt.cadd(smt.csub(_c(-4), w), smt.cmul(_e(w), p))
+
+
+def num_beta(w):
+    return smt.cadd(smt.cadd(_c(2), w), smt.cmul(_e(w), smt.cadd(_c(-2), w)))
+
+
+def num_gamma(w):
+    q = smt.csub(smt.csub(_c(-4), smt.cmul(_c(3), w)), smt.cpow_int(w, 2))
+    return smt.cadd(q, smt.cmul(_e(w), smt.csub(_c(4), w)))
+
+
+# numerator and power of w in the denominator of each closed form  g = NUM / w^p
+NUM = {"phi1": (num_phi1, 1), "alpha": (num_alpha, 3), "beta": (num_beta, 3), "gamma": (num_gamma, 3)}
+
 G = {"phi1_half": g_phi1_half, "phi1": g_phi1, "phi2": g_phi2, "alpha": g_alpha, "beta": g_beta,
      "beta4": g_beta4, "gamma": g_gamma}
 
